@@ -5,7 +5,7 @@ import CylcModel.SchedActC01
 
 namespace CylcModel.Sched
 
-variable {g : Graph} {allow : Proxy → Bool}
+variable {g : Graph} {K : Kinds}
 
 theorem spawnTask_key {s : State} {n : String} {p : Int} {y : Proxy} (h : spawnTask g s n p = some y) :
     y.pt = p ∧ y.name = n := by
@@ -22,7 +22,7 @@ theorem spawnTask_key {s : State} {n : String} {p : Int} {y : Proxy} (h : spawnT
 
 /-- a state that differs only in untracked components -/
 theorem steps_frame {s s' : State} (hp : s'.pool = s.pool) (hh : s'.hist = s.hist)
-    (ha : s'.absDone = s.absDone) (hl : s'.launched = s.launched) : Steps g allow s s' :=
+    (ha : s'.absDone = s.absDone) (hl : s'.launched = s.launched) : Steps g K s s' :=
   Steps.single (Act.frame hp ⟨hh, ha, hl⟩)
 
 def PlWhy (g : Graph) (n : String) (p : Int) : Prop :=
@@ -36,12 +36,12 @@ theorem PlWhy.spawnWhy {n : String} {p : Int} (h : PlWhy g n p) (s : State) : Sp
 theorem steps_add {s : State} {y0 y : Proxy} (hg : s.get? y.pt y.name = none)
     (hsp : spawnTask g s y.name y.pt = some y0)
     (hy : y = y0 ∨ ∃ a, justB s a = true ∧ y = y0.satisfyMe a)
-    (hw : SpawnWhy g s y.name y.pt) : Steps g allow s (s.add y) := by
+    (hw : SpawnWhy g s y.name y.pt) : Steps g K s (s.add y) := by
   apply Steps.single
   refine Act.spawn y0 y hg hsp hy hw ?_ ⟨?_, ?_, ?_⟩ <;> simp [State.add, hg]
 
 theorem steps_spawnAndAdd {s : State} {n : String} {p : Int} (hw : PlWhy g n p) :
-    Steps g allow s (spawnAndAdd g s n p) := by
+    Steps g K s (spawnAndAdd g s n p) := by
   unfold spawnAndAdd
   split
   · exact Steps.refl s
@@ -59,7 +59,7 @@ theorem steps_spawnAndAdd {s : State} {n : String} {p : Int} (hw : PlWhy g n p) 
     · exact Steps.refl s
 
 theorem steps_spawnNextParentless {s : State} (x : Proxy) :
-    Steps g allow s (spawnNextParentless g s x) := by
+    Steps g K s (spawnNextParentless g s x) := by
   unfold spawnNextParentless
   split
   · exact Steps.refl s
@@ -77,22 +77,22 @@ theorem frame_computeRunahead (s : State) (f : Bool) :
   · exact ⟨rfl, rfl, rfl, rfl⟩
   · split <;> exact ⟨rfl, rfl, rfl, rfl⟩
 
-theorem steps_computeRunahead (s : State) (f : Bool) : Steps g allow s (computeRunahead g s f) := by
+theorem steps_computeRunahead (s : State) (f : Bool) : Steps g K s (computeRunahead g s f) := by
   have h := frame_computeRunahead (g := g) s f
   exact steps_frame h.1 h.2.1 h.2.2.1 h.2.2.2
 
-theorem steps_put {s : State} {x y : Proxy} (hg : s.get? y.pt y.name = some x) (hu : Upd g allow s x y) :
-    Steps g allow s (s.put y) :=
+theorem steps_put {s : State} {x y : Proxy} (hg : s.get? y.pt y.name = some x) (hu : Upd g K s x y) :
+    Steps g K s (s.put y) :=
   Steps.single (Act.upd x y hg hu rfl (Same.rfl' _))
 
 theorem steps_put' {s : State} {p : Int} {n : String} {x y : Proxy} (hg : s.get? p n = some x)
-    (hu : Upd g allow s x y) : Steps g allow s (s.put y) := by
+    (hu : Upd g K s x y) : Steps g K s (s.put y) := by
   have hk := upd_key hu
   have hx := get?_some_spec hg
   exact steps_put (by rw [hk.1, hk.2, hx.2.1, hx.2.2]; exact hg) hu
 
-theorem steps_releaseRunahead (hwf : g.wf = true) {s : State} (hi : RInv g s) :
-    Steps g allow s (releaseRunahead g s).1 := by
+theorem steps_releaseRunahead (hwf : g.wf = true) (hs : K.sched = true) {s : State} (hi : RInv g s) :
+    Steps g K s (releaseRunahead g s).1 := by
   unfold releaseRunahead
   split
   · exact Steps.refl s
@@ -101,49 +101,49 @@ theorem steps_releaseRunahead (hwf : g.wf = true) {s : State} (hi : RInv g s) :
     · simp only
       apply steps_foldl (RInv g) (fun _ _ hi ha => rinv_act hwf hi ha) _ _ _ _ hi
       intro st x _
-      have h1 : Steps g allow st (match st.get? x.pt x.name with
+      have h1 : Steps g K st (match st.get? x.pt x.name with
           | some y => st.put (y.reset (runahead := some false))
           | none => st) := by
         split
         · rename_i y hy
-          exact steps_put' hy (Upd.release y)
+          exact steps_put' hy (Upd.release y hs)
         · exact Steps.refl st
       exact h1.trans (steps_spawnNextParentless x)
 
-theorem steps_releaseRunaheadN (hwf : g.wf = true) : ∀ (n : Nat) {s : State}, RInv g s →
-    Steps g allow s (releaseRunaheadN g n s) := by
+theorem steps_releaseRunaheadN (hwf : g.wf = true) (hs : K.sched = true) : ∀ (n : Nat) {s : State}, RInv g s →
+    Steps g K s (releaseRunaheadN g n s) := by
   intro n; induction n with
   | zero => intro s _; exact Steps.refl s
   | succ n ih =>
     intro s hi
     unfold releaseRunaheadN
     simp only
-    have h1 : Steps g allow s (releaseRunahead g s).1 := steps_releaseRunahead hwf hi
+    have h1 : Steps g K s (releaseRunahead g s).1 := steps_releaseRunahead hwf hs hi
     split
     · exact h1.trans (ih (rinv_steps hwf h1 hi))
     · exact h1
 
-theorem steps_queueIfReady {s : State} {p : Int} {n : String} {x : Proxy} (hg : s.get? p n = some x) :
-    Steps g allow s (queueIfReady s x) := by
+theorem steps_queueIfReady (hs : K.sched = true) {s : State} {p : Int} {n : String} {x : Proxy} (hg : s.get? p n = some x) :
+    Steps g K s (queueIfReady s x) := by
   unfold queueIfReady
   split
   · rename_i hc
-    exact steps_put' hg (Upd.queue x hc)
+    exact steps_put' hg (Upd.queue x hc hs)
   · exact Steps.refl s
 
 theorem rinv_empty : RInv g ({} : State) :=
-  ⟨nodup_empty, (by intro x hx; cases hx), (by intro h hh; cases hh)⟩
+  ⟨nodup_empty, (by intro x hx; cases hx), (by intro h hh; cases hh), (by intro _ x hx; cases hx)⟩
 
-theorem steps_loadFromPoint (hwf : g.wf = true) : Steps g allow ({} : State) (loadFromPoint g) := by
+theorem steps_loadFromPoint (hwf : g.wf = true) (hs : K.sched = true) : Steps g K ({} : State) (loadFromPoint g) := by
   unfold loadFromPoint
   simp only
   -- parentless spawning
-  have h1 : Steps g allow ({} : State) (g.tasks.foldl (fun st t =>
+  have h1 : Steps g K ({} : State) (g.tasks.foldl (fun st t =>
       match t.firstParentless with
       | some p => spawnAndAdd g st t.name p
       | none => st) {}) := by
     have : ∀ (l : List TaskDefn), (∀ t ∈ l, t ∈ g.tasks) → ∀ (st : State),
-        Steps g allow st (l.foldl (fun st t =>
+        Steps g K st (l.foldl (fun st t =>
           match t.firstParentless with
           | some p => spawnAndAdd g st t.name p
           | none => st) st) := by
@@ -153,7 +153,7 @@ theorem steps_loadFromPoint (hwf : g.wf = true) : Steps g allow ({} : State) (lo
         intro hl st
         simp only [List.foldl_cons]
         have ht : t ∈ g.tasks := hl t (List.mem_cons_self)
-        have h0 : Steps g allow st (match t.firstParentless with
+        have h0 : Steps g K st (match t.firstParentless with
             | some p => spawnAndAdd g st t.name p
             | none => st) := by
           split
@@ -167,20 +167,20 @@ theorem steps_loadFromPoint (hwf : g.wf = true) : Steps g allow ({} : State) (lo
       | some p => spawnAndAdd g st t.name p
       | none => st) ({} : State)) = s1 at h1 ⊢
   have hi1 := rinv_steps hwf h1 rinv_empty
-  have h2 : Steps g allow s1 (computeRunahead g s1) := steps_computeRunahead s1 false
+  have h2 : Steps g K s1 (computeRunahead g s1) := steps_computeRunahead s1 false
   have hi2 := rinv_steps hwf h2 hi1
-  have h3 : Steps g allow (computeRunahead g s1) (releaseRunaheadN g 10 (computeRunahead g s1)) :=
-    steps_releaseRunaheadN hwf 10 hi2
+  have h3 : Steps g K (computeRunahead g s1) (releaseRunaheadN g 10 (computeRunahead g s1)) :=
+    steps_releaseRunaheadN hwf hs 10 hi2
   have hi3 := rinv_steps hwf h3 hi2
   refine (h1.trans (h2.trans h3)).trans ?_
   apply steps_foldl (RInv g) (fun _ _ hi ha => rinv_act hwf hi ha) _ _ _ _ hi3
   intro st x _
   split
   · rename_i y hy
-    exact steps_queueIfReady hy
+    exact steps_queueIfReady hs hy
   · exact Steps.refl st
 
-theorem steps_sweepQueue (hwf : g.wf = true) {s : State} (hi : RInv g s) : Steps g allow s (sweepQueue s) := by
+theorem steps_sweepQueue (hwf : g.wf = true) (hsch : K.sched = true) {s : State} (hi : RInv g s) : Steps g K s (sweepQueue s) := by
   unfold sweepQueue
   apply steps_foldl (RInv g) (fun _ _ hi ha => rinv_act hwf hi ha) _ _ _ _ hi
   intro st x _
@@ -189,22 +189,22 @@ theorem steps_sweepQueue (hwf : g.wf = true) {s : State} (hi : RInv g s) : Steps
     split
     · rename_i hc
       have hs := get?_some_spec hy
-      have h1 : Steps g allow st (st.put { y with retryWait := false }) := steps_put' hy (Upd.unwait y hc)
+      have h1 : Steps g K st (st.put { y with retryWait := false }) := steps_put' hy (Upd.unwait y hc hsch)
       have hg2 : (st.put { y with retryWait := false }).get? x.pt x.name = some { y with retryWait := false } := by
         have := get?_put_same (s := st) (y := { y with retryWait := false }) (x := y)
           (by show st.get? y.pt y.name = some y; rw [hs.2.1, hs.2.2]; exact hy)
         rw [← hs.2.1, ← hs.2.2]; exact this
-      exact h1.trans (steps_queueIfReady hg2)
+      exact h1.trans (steps_queueIfReady hsch hg2)
     · exact Steps.refl st
   · exact Steps.refl st
 
 /-! ### Release and submission -/
 
-theorem steps_launch {s : State} {x : Proxy} (hg : s.get? x.pt x.name = some x) (hq : x.queued = true) :
-    Steps g allow s { (s.put (launchOf x)) with launched := s.launched ++ [(x.pt, x.name, x.submitNum + 1)] } :=
-  Steps.single (Act.launch x hg hq rfl rfl rfl rfl)
+theorem steps_launch (hs : K.sched = true) {s : State} {x : Proxy} (hg : s.get? x.pt x.name = some x) (hq : x.queued = true) :
+    Steps g K s { (s.put (launchOf x)) with launched := s.launched ++ [(x.pt, x.name, x.submitNum + 1)] } :=
+  Steps.single (Act.launch x hg hq rfl rfl rfl rfl hs)
 
-theorem steps_releaseAndSubmit {s : State} (hi : RInv g s) : Steps g allow s (releaseAndSubmit s) := by
+theorem steps_releaseAndSubmit (hs : K.sched = true) {s : State} (hi : RInv g s) : Steps g K s (releaseAndSubmit s) := by
   unfold releaseAndSubmit
   simp only
   split
@@ -213,7 +213,7 @@ theorem steps_releaseAndSubmit {s : State} (hi : RInv g s) : Steps g allow s (re
     have key : ∀ (l : List Proxy) (st : State),
         (∀ x ∈ l, st.get? x.pt x.name = some x ∧ x.queued = true) →
         (l.map fun x => (x.pt, x.name)).Nodup →
-        Steps g allow st (l.foldl (fun (st : State) x =>
+        Steps g K st (l.foldl (fun (st : State) x =>
           let y := x.reset (queued := some false)
           let y := { (y.reset (status := some .preparing)) with submitNum := x.submitNum + 1 }
           { (st.put y) with launched := st.launched ++ [(x.pt, x.name, x.submitNum + 1)] }) st) := by
@@ -223,7 +223,7 @@ theorem steps_releaseAndSubmit {s : State} (hi : RInv g s) : Steps g allow s (re
         intro st hl hnd
         simp only [List.foldl_cons]
         have ha := hl a List.mem_cons_self
-        have h1 := steps_launch (g := g) (allow := allow) ha.1 ha.2
+        have h1 := steps_launch (g := g) (K := K) hs ha.1 ha.2
         refine h1.trans (ih _ ?_ ?_)
         · intro z hz
           have hzl := hl z (List.mem_cons_of_mem _ hz)
@@ -271,11 +271,12 @@ theorem get?_spawnNextParentless {s : State} {p : Int} {n : String} {x : Proxy} 
         · exact h
     · exact h
 
-theorem steps_remove {s : State} {x : Proxy} (hg : s.get? x.pt x.name = some x) :
-    Steps g allow s (remove g s x) := by
+theorem steps_remove {s : State} {x : Proxy} (hg : s.get? x.pt x.name = some x)
+    (hr : histFinal g ⟨x.pt, x.name, x.status, x.submitNum, x.done⟩ = true ∨ K.sui = true) :
+    Steps g K s (remove g s x) := by
   unfold remove
   simp only
-  have h1 : Steps g allow s (if (!x.flows.isEmpty && x.runahead) = true then spawnNextParentless g s x else s) := by
+  have h1 : Steps g K s (if (!x.flows.isEmpty && x.runahead) = true then spawnNextParentless g s x else s) := by
     split
     · exact steps_spawnNextParentless x
     · exact Steps.refl s
@@ -285,17 +286,24 @@ theorem steps_remove {s : State} {x : Proxy} (hg : s.get? x.pt x.name = some x) 
     · exact get?_spawnNextParentless x hg
     · exact hg
   generalize (if (!x.flows.isEmpty && x.runahead) = true then spawnNextParentless g s x else s) = s1 at h1 hg1 ⊢
-  exact h1.trans (Steps.single (Act.remove x hg1 rfl rfl rfl rfl))
+  exact h1.trans (Steps.single (Act.remove x hg1 rfl rfl rfl rfl hr))
 
 theorem steps_removeIfComplete {s : State} {x : Proxy} (hg : s.get? x.pt x.name = some x) :
-    Steps g allow s (removeIfComplete g s x) := by
+    Steps g K s (removeIfComplete g s x) := by
   unfold removeIfComplete
   split
   · exact Steps.refl s
-  · split
+  · rename_i hfin
+    split
     · exact Steps.refl s
-    · split
-      · exact steps_remove hg
+    · rename_i t ht
+      split
+      · rename_i hc
+        apply steps_remove hg
+        left
+        unfold histFinal
+        simp only [ht, hc, Bool.and_true]
+        simpa using hfin
       · exact Steps.refl s
 
 /-! ### Spawning on outputs -/
@@ -306,7 +314,7 @@ theorem completedB_justB {s : State} {a : Atom} (h : completedB s a = true) : ju
 /-- the satisfaction sweep over the target keys of one child -/
 theorem steps_satisfyFold (hwf : g.wf = true) (atom : Atom) :
     ∀ (ks : List (Int × String)) (a : State × List (Int × String)), RInv g a.1 → justB a.1 atom = true →
-      Steps g allow a.1 (ks.foldl (fun (a : State × List (Int × String)) k =>
+      Steps g K a.1 (ks.foldl (fun (a : State × List (Int × String)) k =>
         match a.1.get? k.1 k.2 with
         | none => a
         | some z =>
@@ -317,7 +325,7 @@ theorem steps_satisfyFold (hwf : g.wf = true) (atom : Atom) :
   | cons k ks ih =>
     intro a hi hj
     simp only [List.foldl_cons]
-    have h1 : Steps g allow a.1 (match a.1.get? k.1 k.2 with
+    have h1 : Steps g K a.1 (match a.1.get? k.1 k.2 with
         | none => a
         | some z =>
           let z := z.satisfyMe atom
@@ -328,13 +336,79 @@ theorem steps_satisfyFold (hwf : g.wf = true) (atom : Atom) :
         exact steps_put' hz (Upd.satisfy z atom hj)
     exact h1.trans (ih _ (rinv_steps hwf h1 hi) (justB_steps hwf h1 hi hj))
 
-theorem steps_spawnChild (hwf : g.wf = true) {p : Int} {n out : String} (acc : State × List (Int × String))
-    (c : Child) (hi : RInv g acc.1) (hcomp : completedB acc.1 ⟨p, n, out⟩ = true)
-    (hc : c ∈ childrenAt g n p out) : Steps g allow acc.1 (spawnChild g p n out acc c).1 := by
+theorem satisfyFold_snd (atom : Atom) :
+    ∀ (ks : List (Int × String)) (a : State × List (Int × String)), (∀ z ∈ a.1.pool, z.sui = []) →
+      (ks.foldl (fun (a : State × List (Int × String)) k =>
+        match a.1.get? k.1 k.2 with
+        | none => a
+        | some z =>
+          let z := z.satisfyMe atom
+          (a.1.put z, if (z.suicideNow && !a.2.contains k) = true then a.2 ++ [k] else a.2)) a).2 = a.2 := by
+  intro ks; induction ks with
+  | nil => intro a _; rfl
+  | cons k ks ih =>
+    intro a ha
+    simp only [List.foldl_cons]
+    cases hg : a.1.get? k.1 k.2 with
+    | none => simp only; exact ih a ha
+    | some z =>
+      simp only
+      have hz : (z.satisfyMe atom).sui = [] := by
+        show z.sui.map (·.satisfy atom) = []
+        rw [ha z (get?_some_spec hg).1]; rfl
+      have hsn : (z.satisfyMe atom).suicideNow = false := by
+        unfold Proxy.suicideNow; rw [hz]; rfl
+      rw [ih]
+      · simp [hsn]
+      · intro w hw
+        rcases mem_put hw with rfl | hw
+        · exact hz
+        · exact ha w hw
+
+theorem spawnChild_snd (hwf : g.wf = true) (hns : g.noSui = true) {p : Int} {n out : String}
+    (acc : State × List (Int × String)) (c : Child) (hi : RInv g acc.1)
+    (hcomp : completedB acc.1 ⟨p, n, out⟩ = true) (hc : c ∈ childrenAt g n p out) :
+    (spawnChild g p n out acc c).2 = acc.2 := by
   obtain ⟨st, sui⟩ := acc
   unfold spawnChild
   simp only at hi hcomp ⊢
-  have h0 : Steps g allow st (if (c.isAbs && !st.absDone.contains ⟨p, n, out⟩) = true then
+  have h0 : Steps g Kinds.all st (if (c.isAbs && !st.absDone.contains ⟨p, n, out⟩) = true then
+      { st with absDone := st.absDone ++ [⟨p, n, out⟩] } else st) := by
+    split
+    · exact Steps.single (Act.absAdd ⟨p, n, out⟩ hcomp rfl rfl rfl rfl)
+    · exact Steps.refl st
+  generalize (if (c.isAbs && !st.absDone.contains ⟨p, n, out⟩) = true then
+      { st with absDone := st.absDone ++ [⟨p, n, out⟩] } else st) = st0 at h0 ⊢
+  have hi0 := rinv_steps hwf h0 hi
+  have hc0 := completedB_steps hwf h0 hi hcomp
+  split
+  · rfl
+  · rename_i y hy
+    cases hget : st0.get? c.pt c.name with
+    | some y' =>
+      simp only [hget, Option.isSome_some, if_true]
+      exact satisfyFold_snd _ _ (st0, sui) (hi0.nosui hns)
+    | none =>
+      simp only [hget, Option.isSome_none, Bool.false_eq_true, if_false]
+      simp only [hget] at hy
+      have hk := spawnTask_key hy
+      have h1 : Steps g Kinds.all st0 (st0.add (y.satisfyMe ⟨p, n, out⟩)) := by
+        apply steps_add (y0 := y)
+        · show st0.get? y.pt y.name = none
+          rw [hk.1, hk.2]; exact hget
+        · show spawnTask g st0 y.name y.pt = some y
+          rw [hk.1, hk.2]; exact hy
+        · exact Or.inr ⟨_, completedB_justB hc0, rfl⟩
+        · exact Or.inr (Or.inr ⟨p, n, out, c, hc, hk.2.symm, hk.1.symm, hc0⟩)
+      exact satisfyFold_snd _ _ (st0.add (y.satisfyMe ⟨p, n, out⟩), sui) ((rinv_steps hwf h1 hi0).nosui hns)
+
+theorem steps_spawnChild (hwf : g.wf = true) {p : Int} {n out : String} (acc : State × List (Int × String))
+    (c : Child) (hi : RInv g acc.1) (hcomp : completedB acc.1 ⟨p, n, out⟩ = true)
+    (hc : c ∈ childrenAt g n p out) : Steps g K acc.1 (spawnChild g p n out acc c).1 := by
+  obtain ⟨st, sui⟩ := acc
+  unfold spawnChild
+  simp only at hi hcomp ⊢
+  have h0 : Steps g K st (if (c.isAbs && !st.absDone.contains ⟨p, n, out⟩) = true then
       { st with absDone := st.absDone ++ [⟨p, n, out⟩] } else st) := by
     split
     · exact Steps.single (Act.absAdd ⟨p, n, out⟩ hcomp rfl rfl rfl rfl)
@@ -355,7 +429,7 @@ theorem steps_spawnChild (hwf : g.wf = true) {p : Int} {n out : String} (acc : S
       simp only [hget, Option.isSome_none, Bool.false_eq_true, if_false]
       simp only [hget] at hy
       have hk := spawnTask_key hy
-      have h1 : Steps g allow st0 (st0.add (y.satisfyMe ⟨p, n, out⟩)) := by
+      have h1 : Steps g K st0 (st0.add (y.satisfyMe ⟨p, n, out⟩)) := by
         apply steps_add (y0 := y)
         · show st0.get? y.pt y.name = none
           rw [hk.1, hk.2]; exact hget
@@ -367,9 +441,10 @@ theorem steps_spawnChild (hwf : g.wf = true) {p : Int} {n out : String} (acc : S
       exact steps_satisfyFold hwf _ _ (st0.add (y.satisfyMe ⟨p, n, out⟩), sui) (rinv_steps hwf h1 hi0)
         (justB_steps hwf h1 hi0 (completedB_justB hc0))
 
-theorem steps_spawnOnOutput (hwf : g.wf = true) {s : State} {p : Int} {n out : String} (hi : RInv g s)
+theorem steps_spawnOnOutput (hwf : g.wf = true) (hsui : K.sui = true ∨ g.noSui = true) {s : State} {p : Int}
+    {n out : String} (hi : RInv g s)
     (hcomp : (g.task? n).isSome → completedB s ⟨p, n, out⟩ = true) :
-    Steps g allow s (spawnOnOutput g s p n out) := by
+    Steps g K s (spawnOnOutput g s p n out) := by
   unfold spawnOnOutput
   split
   · exact Steps.refl s
@@ -379,33 +454,37 @@ theorem steps_spawnOnOutput (hwf : g.wf = true) {s : State} {p : Int} {n out : S
     -- the children
     have h1 : ∀ (cs : List Child) (acc : State × List (Int × String)), (∀ c ∈ cs, c ∈ childrenAt g n p out) →
         (cs ≠ [] → completedB acc.1 ⟨p, n, out⟩ = true) → RInv g acc.1 →
-        Steps g allow acc.1 (cs.foldl (spawnChild g p n out) acc).1 := by
+        Steps g K acc.1 (cs.foldl (spawnChild g p n out) acc).1 ∧
+        (g.noSui = true → (cs.foldl (spawnChild g p n out) acc).2 = acc.2) := by
       intro cs; induction cs with
-      | nil => intro acc _ _ _; exact Steps.refl _
+      | nil => intro acc _ _ _; exact ⟨Steps.refl _, fun _ => rfl⟩
       | cons c cs ih =>
         intro acc hcs hcm hia
         simp only [List.foldl_cons]
         have hcm' := hcm (by simp)
-        have hs1 := steps_spawnChild (allow := allow) hwf acc c hia hcm' (hcs c List.mem_cons_self)
-        exact hs1.trans (ih _ (fun c' hc' => hcs c' (List.mem_cons_of_mem _ hc'))
-          (fun _ => completedB_steps hwf hs1 hia hcm') (rinv_steps hwf hs1 hia))
+        have hs1 := steps_spawnChild (K := K) hwf acc c hia hcm' (hcs c List.mem_cons_self)
+        have ih' := ih _ (fun c' hc' => hcs c' (List.mem_cons_of_mem _ hc'))
+          (fun _ => completedB_steps hwf hs1 hia hcm') (rinv_steps hwf hs1 hia)
+        refine ⟨hs1.trans ih'.1, fun hns => ?_⟩
+        rw [ih'.2 hns]
+        exact spawnChild_snd hwf hns acc c hia hcm' (hcs c List.mem_cons_self)
     -- the suicides
-    have h2 : ∀ (ks : List (Int × String)) (st : State),
-        Steps g allow st (ks.foldl (fun (st : State) k => match st.get? k.1 k.2 with
+    have h2 : K.sui = true → ∀ (ks : List (Int × String)) (st : State),
+        Steps g K st (ks.foldl (fun (st : State) k => match st.get? k.1 k.2 with
           | some z => remove g st z
           | none => st) st) := by
-      intro ks; induction ks with
+      intro hk ks; induction ks with
       | nil => intro st; exact Steps.refl st
       | cons k ks ih =>
         intro st
         simp only [List.foldl_cons]
-        have : Steps g allow st (match st.get? k.1 k.2 with
+        have : Steps g K st (match st.get? k.1 k.2 with
             | some z => remove g st z
             | none => st) := by
           split
           · rename_i z hz
             have hzs := get?_some_spec hz
-            exact steps_remove (by rw [hzs.2.1, hzs.2.2]; exact hz)
+            exact steps_remove (by rw [hzs.2.1, hzs.2.2]; exact hz) (Or.inr hk)
           · exact Steps.refl st
         exact this.trans (ih _)
     have hcs : ∀ c ∈ (if x.flows.isEmpty = true then [] else childrenOf g x out), c ∈ childrenAt g n p out := by
@@ -424,9 +503,14 @@ theorem steps_spawnOnOutput (hwf : g.wf = true) {s : State} {p : Int} {n out : S
         | none => simp [ht] at hne
         | some t => rfl
     generalize (if x.flows.isEmpty = true then [] else childrenOf g x out) = cs at hcs hne
-    have hs1 := h1 cs (s, []) hcs hne hi
-    generalize hR : (List.foldl (spawnChild g p n out) (s, []) cs) = R at hs1
-    have hs2 := h2 R.2 R.1
+    obtain ⟨hs1, hsnd⟩ := h1 cs (s, []) hcs hne hi
+    generalize hR : (List.foldl (spawnChild g p n out) (s, []) cs) = R at hs1 hsnd
+    have hs2 : Steps g K R.1 (R.2.foldl (fun (st : State) k => match st.get? k.1 k.2 with
+          | some z => remove g st z
+          | none => st) R.1) := by
+      rcases hsui with hk | hns
+      · exact h2 hk R.2 R.1
+      · rw [hsnd hns]; exact Steps.refl _
     refine (hs1.trans hs2).trans ?_
     split
     · rename_i x' hx'
@@ -445,7 +529,7 @@ theorem TEq.rfl' (s : State) : TEq s s := ⟨rfl, rfl, rfl, rfl⟩
 theorem TEq.trans' {a b c : State} (h1 : TEq a b) (h2 : TEq b c) : TEq a c :=
   ⟨h2.1.trans h1.1, h2.2.1.trans h1.2.1, h2.2.2.1.trans h1.2.2.1, h2.2.2.2.trans h1.2.2.2⟩
 
-theorem TEq.steps {s s' : State} (h : TEq s s') : Steps g allow s s' := steps_frame h.1 h.2.1 h.2.2.1 h.2.2.2
+theorem TEq.steps {s s' : State} (h : TEq s s') : Steps g K s s' := steps_frame h.1 h.2.1 h.2.2.1 h.2.2.2
 
 theorem get?_of_pool_eq {s s' : State} (h : s'.pool = s.pool) (p : Int) (n : String) : s'.get? p n = s.get? p n := by
   unfold State.get?; rw [h]
@@ -522,21 +606,22 @@ theorem processMessage_ghost : ∀ (fuel : Nat) (s : State) (p : Int) (n : Strin
               | exact hS.trans' (teq_store_true _ _)
 
 theorem steps_store {s : State} {p : Int} {n : String} {x y : Proxy} {tr : Bool}
-    (hl : lookup s p n = some (x, tr)) (hu : Upd g allow s x y) : Steps g allow s (store s y tr) := by
+    (hl : lookup s p n = some (x, tr)) (hu : tr = false → Upd g K s x y) : Steps g K s (store s y tr) := by
   cases tr with
   | true => exact (teq_store_true s y).steps
   | false =>
     have hg := lookup_false hl
-    show Steps g allow s (s.put y)
-    exact steps_put' hg hu
+    show Steps g K s (s.put y)
+    exact steps_put' hg (hu rfl)
 
-theorem steps_spawnChildren (hwf : g.wf = true) {s : State} {p : Int} {n out : String} {tr : Bool} (hi : RInv g s)
+theorem steps_spawnChildren (hwf : g.wf = true) (hsui : K.sui = true ∨ g.noSui = true) {s : State} {p : Int}
+    {n out : String} {tr : Bool} (hi : RInv g s)
     (hcomp : tr = false → (g.task? n).isSome → completedB s ⟨p, n, out⟩ = true) :
-    Steps g allow s (spawnChildren g s p n out tr) := by
+    Steps g K s (spawnChildren g s p n out tr) := by
   unfold spawnChildren
   cases tr with
   | true => exact Steps.refl s
-  | false => exact steps_spawnOnOutput hwf hi (hcomp rfl)
+  | false => exact steps_spawnOnOutput hwf hsui hi (hcomp rfl)
 
 theorem completedB_of_mem {s : State} {y : Proxy} (hy : y ∈ s.pool) {out : String} (ho : out ∈ y.done) :
     completedB s ⟨y.pt, y.name, out⟩ = true := by
@@ -571,27 +656,54 @@ theorem lookup_key {s : State} {p : Int} {n : String} {x : Proxy} {tr : Bool}
     simpa using this
 
 /-- store an update, then spawn on an output that is completed already or that the stored proxy has -/
-theorem steps_store_spawn (hwf : g.wf = true) {s : State} {p : Int} {n out : String} {x y : Proxy} {tr : Bool}
-    (hi : RInv g s) (hl : lookup s p n = some (x, tr)) (hu : Upd g allow s x y)
+theorem steps_store_spawn (hwf : g.wf = true) (hsui : K.sui = true ∨ g.noSui = true) {s : State} {p : Int}
+    {n out : String} {x y : Proxy} {tr : Bool}
+    (hi : RInv g s) (hl : lookup s p n = some (x, tr)) (hu : tr = false → Upd g K s x y)
     (ho : tr = false → (g.task? n).isSome → completedB s ⟨p, n, out⟩ = true ∨ out ∈ y.done) :
-    Steps g allow s (spawnChildren g (store s y tr) p n out tr) := by
-  have h1 : Steps g allow s (store s y tr) := steps_store hl hu
-  refine h1.trans (steps_spawnChildren hwf (rinv_steps hwf h1 hi) ?_)
+    Steps g K s (spawnChildren g (store s y tr) p n out tr) := by
+  have h1 : Steps g K s (store s y tr) := steps_store hl hu
+  refine h1.trans (steps_spawnChildren hwf hsui (rinv_steps hwf h1 hi) ?_)
   intro htr ht
   subst htr
   rcases ho rfl ht with h | h
   · exact completedB_steps hwf h1 hi h
-  · exact completedB_store hl (upd_key hu) h
+  · exact completedB_store hl (upd_key (hu rfl)) h
 
-theorem steps_processMessage (hwf : g.wf = true) : ∀ (fuel : Nat) (s : State) (p : Int) (n : String) (flag : Flag)
-    (sn : Nat) (msg : String), RInv g s →
-    (msg = "submit-failed" → ∀ x, s.get? p n = some x → allow x = true) →
-    Steps g allow s (processMessage g fuel s p n flag sn msg).1 := by
+/-- the two checks of `_process_message_check` on the pooled proxy -/
+def passes (flag : Flag) (sn : Nat) (x : Proxy) : Prop :=
+  ¬ ((!false && flag == Flag.received && sn != x.submitNum) = true) ∧
+  ¬ ((!false && x.status == Status.waiting && decide (x.submitNum > 0) &&
+      (decide (x.subTry > 0) || decide (x.execTry > 0))) = true)
+
+/-- the kinds without retries -/
+def Kinds.noRetry (K : Kinds) : Kinds := { K with retry := false }
+
+theorem Kinds.noRetry_le (K : Kinds) : K.noRetry.le K :=
+  ⟨fun _ h => h, fun _ h => h, fun h => h, fun _ h => h, (fun h => by cases h), fun h => h⟩
+
+/-- the messages whose handling changes the status by the job's own report -/
+def needsLive (msg : String) : Prop := msg = "started" ∨ msg = "succeeded" ∨ msg = "failed"
+
+/-- what the caller knows about `live`: every proxy is, or the non-waiting proxies of the instance are and the
+looked-up proxy, having passed the checks, is not waiting -/
+def LiveHyp (K : Kinds) (s : State) (p : Int) (n : String) (flag : Flag) (sn : Nat) : Prop :=
+  (∀ x, K.live x = true) ∨
+  ((∀ x : Proxy, x.pt = p → x.name = n → x.status ≠ .waiting → K.live x = true) ∧
+   (∀ x0, s.get? p n = some x0 → passes flag sn x0 → x0.status ≠ .waiting))
+
+set_option maxHeartbeats 1600000 in
+theorem steps_processMessage (hwf : g.wf = true) : ∀ (fuel : Nat) (K : Kinds) (s : State) (p : Int) (n : String)
+    (flag : Flag) (sn : Nat) (msg : String), RInv g s → (K.sui = true ∨ g.noSui = true) →
+    (∀ x : Proxy, x.pt = p → x.name = n → K.msg x = true) →
+    (needsLive msg → LiveHyp K s p n flag sn) →
+    ((msg = "failed" ∨ msg = "submit-failed") → K.retry = true) →
+    (msg = "submit-failed" → ∀ x, s.get? p n = some x → K.allow x = true) →
+    Steps g K s (processMessage g fuel s p n flag sn msg).1 := by
   intro fuel
   induction fuel with
-  | zero => intro s p n flag sn msg _ _; exact Steps.refl s
+  | zero => intro K s p n flag sn msg _ _ _ _ _ _; exact Steps.refl s
   | succ fuel ih =>
-    intro s p n flag sn msg hi hallow
+    intro K s p n flag sn msg hi hsui hmsg hnw hretry hallow
     cases hg : s.get? p n with
     | none => exact (processMessage_ghost (fuel + 1) s p n flag sn msg hg).steps
     | some x0 =>
@@ -606,19 +718,32 @@ theorem steps_processMessage (hwf : g.wf = true) : ∀ (fuel : Nat) (s : State) 
       obtain ⟨rfl, rfl⟩ := hl
       split
       · exact Steps.refl s
-      · split
+      · rename_i hchk1
+        split
         · exact Steps.refl s
-        · simp only
+        · rename_i hchk2
+          simp only
+          -- the looked-up proxy is not waiting (or every proxy is `live`)
+          have hnw0 : needsLive msg → ((∀ x, K.live x = true) ∨
+              ((∀ x : Proxy, x.pt = p → x.name = n → x.status ≠ .waiting → K.live x = true) ∧ NWk p n s)) := by
+            intro hn
+            rcases hnw hn with h | h
+            · exact Or.inl h
+            · right
+              refine ⟨h.1, ?_⟩
+              unfold NWk
+              rw [hg]
+              exact h.2 x0 hg ⟨hchk1, hchk2⟩
           generalize hxc : (if (msg == "submit-failed" || msg == "failed") = true then (x0, some false)
               else setComplete g x0 msg) = xc
           -- the completion of the output named by the message
-          have hu1 : Upd g allow s x0 xc.1 := by
+          have hu1 : Upd g K.noRetry s x0 xc.1 := by
             rw [← hxc]
             split
             · exact Upd.refl x0
             · rename_i hne
               simp only [Bool.or_eq_true, beq_iff_eq, not_or] at hne
-              exact Upd.setc x0 msg hne.2 hne.1
+              exact Upd.setc x0 msg hne.2 hne.1 (hmsg x0 hx0.2.1 hx0.2.2)
           have hdone1 : (xc.2 = some true ∨ (hasOutput g x0 msg = true ∧ msg ≠ "failed" ∧ msg ≠ "submit-failed")) →
               msg ∈ xc.1.done := by
             rw [← hxc]
@@ -641,41 +766,92 @@ theorem steps_processMessage (hwf : g.wf = true) : ∀ (fuel : Nat) (s : State) 
                   · simp [ho] at h
                 · rw [hs.1]; exact hs.2 h.1
               · rw [hs.2.2.1]; simp
-          have hs1 : Steps g allow s (store s xc.1 false) := steps_store hl0 hu1
+          have hs1' : Steps g K.noRetry s (store s xc.1 false) := steps_store hl0 (fun _ => hu1)
+          have hs1 : Steps g K s (store s xc.1 false) := hs1'.mono K.noRetry_le
           have hi1 := rinv_steps hwf hs1 hi
+          have hnw1 : needsLive msg → ((∀ x, K.live x = true) ∨
+              ((∀ x : Proxy, x.pt = p → x.name = n → x.status ≠ .waiting → K.live x = true) ∧
+                NWk p n (store s xc.1 false))) := by
+            intro hn
+            rcases hnw0 hn with h | h
+            · exact Or.inl h
+            · exact Or.inr ⟨h.1, nwk_steps rfl hs1' h.2⟩
           have hc1 : msg ∈ xc.1.done → completedB (store s xc.1 false) ⟨p, n, msg⟩ = true :=
             fun h => completedB_store hl0 (upd_key hu1) h
-          -- implied outputs
-          have himp : ∀ (l : List String) (st : State), (∀ m ∈ l, m ≠ "submit-failed") → RInv g st →
-              Steps g allow st (l.foldl (fun st m => (processMessage g fuel st p n .internal sn m).1) st) := by
+          -- implied outputs: processed without retries
+          have himp : ∀ (l : List String) (st : State), (∀ m ∈ l, m ≠ "submit-failed" ∧ m ≠ "failed" ∧ needsLive msg) →
+              RInv g st →
+              (needsLive msg → ((∀ x, K.live x = true) ∨
+                ((∀ x : Proxy, x.pt = p → x.name = n → x.status ≠ .waiting → K.live x = true) ∧ NWk p n st))) →
+              Steps g K.noRetry st (l.foldl (fun st m => (processMessage g fuel st p n .internal sn m).1) st) := by
             intro l; induction l with
-            | nil => intro st _ _; exact Steps.refl st
+            | nil => intro st _ _ _; exact Steps.refl st
             | cons a l ihl =>
-              intro st hne hst
+              intro st hne hst hnwst
               simp only [List.foldl_cons]
-              have h3 := ih st p n .internal sn a hst (fun h => absurd h (hne a List.mem_cons_self))
-              exact h3.trans (ihl _ (fun m hm => hne m (List.mem_cons_of_mem _ hm)) (rinv_steps hwf h3 hst))
-          have hs2 := himp ((if (msg == "succeeded" || msg == "failed") = true then ["submitted", "started"]
+              have hnl := (hne a List.mem_cons_self).2.2
+              have h3 : Steps g K.noRetry st (processMessage g fuel st p n .internal sn a).1 := by
+                apply ih K.noRetry st p n .internal sn a hst hsui hmsg
+                · intro _
+                  rcases hnwst hnl with h | h
+                  · exact Or.inl h
+                  · right
+                    refine ⟨h.1, ?_⟩
+                    intro x0' hg' _
+                    have := h.2
+                    unfold NWk at this
+                    rw [hg'] at this
+                    exact this
+                · intro h
+                  rcases h with h | h
+                  · exact absurd h (hne a List.mem_cons_self).2.1
+                  · exact absurd h (hne a List.mem_cons_self).1
+                · intro h; exact absurd h (hne a List.mem_cons_self).1
+              have hst' := rinv_steps hwf (h3.mono K.noRetry_le) hst
+              have hnw' : needsLive msg → ((∀ x, K.live x = true) ∨
+                  ((∀ x : Proxy, x.pt = p → x.name = n → x.status ≠ .waiting → K.live x = true) ∧
+                    NWk p n (processMessage g fuel st p n .internal sn a).1)) := by
+                intro hn
+                rcases hnwst hn with h | h
+                · exact Or.inl h
+                · exact Or.inr ⟨h.1, nwk_steps rfl h3 h.2⟩
+              exact h3.trans (ihl _ (fun m hm => hne m (List.mem_cons_of_mem _ hm)) hst' hnw')
+          have hs2' := himp ((if (msg == "succeeded" || msg == "failed") = true then ["submitted", "started"]
               else if (msg == "started") = true then ["submitted"] else []).filter fun m => !xc.1.isDone m)
               (store s xc.1 false)
               (by
                 intro m hm
                 have hm' := (List.mem_filter.mp hm).1
                 split at hm'
-                · simp only [List.mem_cons, List.not_mem_nil, or_false] at hm'
-                  rcases hm' with rfl | rfl <;> decide
+                · rename_i hc
+                  have hnl : needsLive msg := by
+                    simp only [Bool.or_eq_true, beq_iff_eq] at hc
+                    rcases hc with hc | hc
+                    · exact Or.inr (Or.inl hc)
+                    · exact Or.inr (Or.inr hc)
+                  simp only [List.mem_cons, List.not_mem_nil, or_false] at hm'
+                  rcases hm' with rfl | rfl <;> exact ⟨by decide, by decide, hnl⟩
                 · split at hm'
-                  · simp only [List.mem_cons, List.not_mem_nil, or_false] at hm'
-                    subst hm'; decide
+                  · rename_i hc
+                    have hnl : needsLive msg := Or.inl (by simpa using hc)
+                    simp only [List.mem_cons, List.not_mem_nil, or_false] at hm'
+                    subst hm'; exact ⟨by decide, by decide, hnl⟩
                   · cases hm')
-              hi1
-          generalize hS : (List.foldl (fun st m => (processMessage g fuel st p n Flag.internal sn m).1) _ _) = S at hs2
+              hi1 hnw1
+          generalize hS : (List.foldl (fun st m => (processMessage g fuel st p n Flag.internal sn m).1) _ _) = S at hs2'
+          have hs2 : Steps g K (store s xc.1 false) S := hs2'.mono K.noRetry_le
           have hiS := rinv_steps hwf hs2 hi1
+          have hnwS : needsLive msg → ((∀ x, K.live x = true) ∨
+              ((∀ x : Proxy, x.pt = p → x.name = n → x.status ≠ .waiting → K.live x = true) ∧ NWk p n S)) := by
+            intro hn
+            rcases hnw1 hn with h | h
+            · exact Or.inl h
+            · exact Or.inr ⟨h.1, nwk_steps rfl hs2' h.2⟩
           have hcS : msg ∈ xc.1.done → completedB S ⟨p, n, msg⟩ = true :=
             fun h => completedB_steps hwf hs2 hi1 (hc1 h)
           refine (hs1.trans hs2).trans ?_
           -- for a submit-failed message nothing happened so far: the proxy is still the one looked up first
-          have hallowS : msg = "submit-failed" → ∀ x2 tr2, lookup S p n = some (x2, tr2) → allow x2 = true := by
+          have hallowS : msg = "submit-failed" → ∀ x2 tr2, lookup S p n = some (x2, tr2) → K.allow x2 = true := by
             intro hm x2 tr2 hl2
             subst hm
             have hxc' : xc = (x0, some false) := by rw [← hxc]; rfl
@@ -703,40 +879,56 @@ theorem steps_processMessage (hwf : g.wf = true) : ∀ (fuel : Nat) (s : State) 
             have hk2 : tr2 = false → x2 ∈ S.pool ∧ x2.pt = p ∧ x2.name = n := fun h => by
               subst h; exact get?_some_spec (lookup_false hl2)
             have hkk := lookup_key hl2
+            have hm2 : K.msg x2 = true := hmsg x2 hkk.1 hkk.2
+            -- a pooled proxy is `live`
+            have hlv : needsLive msg → tr2 = false → K.live x2 = true := by
+              intro hn htr
+              subst htr
+              rcases hnwS hn with h | h
+              · exact h x2
+              · apply h.1 x2 hkk.1 hkk.2
+                have := h.2
+                unfold NWk at this
+                rw [lookup_false hl2] at this
+                exact this
             split
             · -- started
               rename_i hm
               have hm' : msg = "started" := by simpa using hm
               split
               · exact Steps.refl S
-              · refine steps_store_spawn hwf hiS hl2 (Upd.running x2) (fun _ ht => Or.inl ?_)
+              · refine steps_store_spawn hwf hsui hiS hl2 (fun htr => Upd.running x2 hm2 (hlv (Or.inl hm') htr)) (fun _ ht => Or.inl ?_)
                 have := hcS (hdone1 (Or.inr ⟨hstd msg (by simp [hm']) ht, by simp [hm'], by simp [hm']⟩))
                 rw [hm'] at this
                 exact this
             · split
               · -- succeeded
-                rename_i _ hm
+                rename_i hm
                 have hm' : msg = "succeeded" := by simpa using hm
-                refine steps_store_spawn hwf hiS hl2 (Upd.succeeded x2) (fun _ ht => Or.inl ?_)
+                refine steps_store_spawn hwf hsui hiS hl2 (fun htr => Upd.succeeded x2 hm2 (hlv (Or.inr (Or.inl hm')) htr)) (fun _ ht => Or.inl ?_)
                 have := hcS (hdone1 (Or.inr ⟨hstd msg (by simp [hm']) ht, by simp [hm'], by simp [hm']⟩))
                 rw [hm'] at this
                 exact this
               · split
                 · -- failed
+                  rename_i hm
+                  have hm' : msg = "failed" := by simpa using hm
+                  have hret := hretry (Or.inl hm')
                   split
                   · exact Steps.refl S
-                  · show Steps g allow S (Prod.fst (if (decide (x2.submitNum > 0) && decide (x2.execTry < maxExec g n)) = true
+                  · show Steps g K S (Prod.fst (if (decide (x2.submitNum > 0) && decide (x2.execTry < maxExec g n)) = true
                         then _ else _ : State × Bool))
                     split
                     · rename_i hr
                       simp only [Bool.and_eq_true, decide_eq_true_eq] at hr
                       have hr' : x2.submitNum > 0 ∧ x2.execTry < maxExec g x2.name := by rw [hkk.2]; exact hr
-                      exact steps_store hl2 (Upd.execRetry x2 hr')
+                      exact steps_store hl2 (fun htr => Upd.execRetry x2 hr' hm2 (hlv (Or.inr (Or.inr hm')) htr) hret)
                     · rename_i hr
                       simp only [Bool.and_eq_true, decide_eq_true_eq] at hr
                       have hr' : ¬ (x2.submitNum > 0 ∧ x2.execTry < maxExec g x2.name) := by rw [hkk.2]; exact hr
                       simp only
-                      refine steps_store_spawn hwf hiS hl2 (Upd.failedFinal x2 hr') (fun htr ht => Or.inr ?_)
+                      refine steps_store_spawn hwf hsui hiS hl2 (fun htr => Upd.failedFinal x2 hr' hm2 (hlv (Or.inr (Or.inr hm')) htr))
+                        (fun htr ht => Or.inr ?_)
                       split
                       · apply setComplete_mem
                         exact hasOutput_std hwf (by simpa [hkk.2] using ht) (by simp)
@@ -746,23 +938,25 @@ theorem steps_processMessage (hwf : g.wf = true) : ∀ (fuel : Nat) (s : State) 
                         exact (hiS.sdPool x2 (hk2 htr).1 (by rw [hkk.2]; exact ht)).1 hst'
                 · split
                   · -- submit-failed
-                    rename_i _ _ hm
+                    rename_i hm
                     have hm' : msg = "submit-failed" := by simpa using hm
                     have hal := hallowS hm' x2 tr2 hl2
+                    have hret := hretry (Or.inr hm')
                     split
                     · exact Steps.refl S
-                    · show Steps g allow S (Prod.fst (if (decide (x2.submitNum > 0) && decide (x2.subTry < maxSub g n)) = true
+                    · show Steps g K S (Prod.fst (if (decide (x2.submitNum > 0) && decide (x2.subTry < maxSub g n)) = true
                           then _ else _ : State × Bool))
                       split
                       · rename_i hr
                         simp only [Bool.and_eq_true, decide_eq_true_eq] at hr
                         have hr' : x2.submitNum > 0 ∧ x2.subTry < maxSub g x2.name := by rw [hkk.2]; exact hr
-                        exact steps_store hl2 (Upd.subRetry x2 hal hr')
+                        exact steps_store hl2 (fun _ => Upd.subRetry x2 hal hr' hm2 hret)
                       · rename_i hr
                         simp only [Bool.and_eq_true, decide_eq_true_eq] at hr
                         have hr' : ¬ (x2.submitNum > 0 ∧ x2.subTry < maxSub g x2.name) := by rw [hkk.2]; exact hr
                         simp only
-                        refine steps_store_spawn hwf hiS hl2 (Upd.subFailedFinal x2 hal hr') (fun htr ht => Or.inr ?_)
+                        refine steps_store_spawn hwf hsui hiS hl2 (fun _ => Upd.subFailedFinal x2 hal hr' hm2)
+                          (fun htr ht => Or.inr ?_)
                         split
                         · apply setComplete_mem
                           exact hasOutput_std hwf (by simpa [hkk.2] using ht) (by simp)
@@ -772,7 +966,7 @@ theorem steps_processMessage (hwf : g.wf = true) : ∀ (fuel : Nat) (s : State) 
                           exact (hiS.sdPool x2 (hk2 htr).1 (by rw [hkk.2]; exact ht)).2 hst'
                   · split
                     · -- submitted
-                      rename_i _ _ _ hm
+                      rename_i hm
                       have hm' : msg = "submitted" := by simpa using hm
                       split
                       · exact Steps.refl S
@@ -781,45 +975,38 @@ theorem steps_processMessage (hwf : g.wf = true) : ∀ (fuel : Nat) (s : State) 
                           have := hcS (hdone1 (Or.inr ⟨hstd msg (by simp [hm']) ht, by simp [hm'], by simp [hm']⟩))
                           rw [hm'] at this
                           exact this
-                        have h5 : Steps g allow S (if x2.status = Status.preparing then
-                            store S ((x2.reset (status := some .submitted)).reset (queued := some false)) tr2 else S) := by
-                          split
-                          · rename_i hp
-                            exact steps_store hl2 (Upd.submitted x2 hp)
-                          · exact Steps.refl S
-                        have h5' : Steps g allow S (if (x2.status == Status.preparing) = true then
+                        have h5' : Steps g K S (if (x2.status == Status.preparing) = true then
                             store S ((x2.reset (status := some .submitted)).reset (queued := some false)) tr2 else S) := by
                           by_cases hp : x2.status = Status.preparing
                           · simp only [hp, beq_self_eq_true, if_true]
-                            simp only [hp, if_true] at h5
-                            exact h5
+                            exact steps_store hl2 (fun _ => Upd.submitted x2 hp hm2)
                           · have : (x2.status == Status.preparing) = false := by simpa using hp
                             simp only [this, Bool.false_eq_true, if_false]
                             exact Steps.refl S
-                        refine h5'.trans (steps_spawnChildren hwf (rinv_steps hwf h5' hiS) ?_)
+                        refine h5'.trans (steps_spawnChildren hwf hsui (rinv_steps hwf h5' hiS) ?_)
                         intro _ ht
                         exact completedB_steps hwf h5' hiS (hcomp ht)
                     · split
                       · -- a custom output newly completed
                         rename_i hcm
-                        refine steps_spawnChildren hwf hiS (fun _ _ => ?_)
+                        refine steps_spawnChildren hwf hsui hiS (fun _ _ => ?_)
                         apply hcS
                         apply hdone1
                         left
                         simpa using hcm
                       · exact Steps.refl S
 
-
 /-! ### The message queue -/
 
-theorem groupMsgs_mem (q : List Msg) : ∀ grp ∈ groupMsgs q, ∀ m ∈ grp.2, m ∈ q := by
+theorem groupMsgs_mem (q : List Msg) :
+    ∀ grp ∈ groupMsgs q, ∀ m ∈ grp.2, m ∈ q ∧ m.pt = grp.1.1 ∧ m.name = grp.1.2 := by
   unfold groupMsgs
   have key : ∀ (l : List Msg) (acc : List ((Int × String) × List Msg)) (seen : List Msg),
-      (∀ grp ∈ acc, ∀ m ∈ grp.2, m ∈ seen) →
+      (∀ grp ∈ acc, ∀ m ∈ grp.2, m ∈ seen ∧ m.pt = grp.1.1 ∧ m.name = grp.1.2) →
       ∀ grp ∈ l.foldl (fun acc m =>
         if acc.any (fun e => e.1 == (m.pt, m.name)) then
           acc.map fun e => if e.1 == (m.pt, m.name) then (e.1, e.2 ++ [m]) else e
-        else acc ++ [((m.pt, m.name), [m])]) acc, ∀ m ∈ grp.2, m ∈ seen ++ l := by
+        else acc ++ [((m.pt, m.name), [m])]) acc, ∀ m ∈ grp.2, m ∈ seen ++ l ∧ m.pt = grp.1.1 ∧ m.name = grp.1.2 := by
     intro l; induction l with
     | nil => intro acc seen h grp hg m hm; simpa using h grp hg m hm
     | cons a l ih =>
@@ -830,37 +1017,53 @@ theorem groupMsgs_mem (q : List Msg) : ∀ grp ∈ groupMsgs q, ∀ m ∈ grp.2,
       · intro grp' hg' m' hm'
         split at hg'
         · obtain ⟨e, he, rfl⟩ := List.mem_map.mp hg'
-          split at hm'
-          · simp only [List.mem_append, List.mem_singleton] at hm' ⊢
+          by_cases hek : (e.1 == (a.pt, a.name)) = true
+          · simp only [hek, if_true] at hm' ⊢
+            simp only [List.mem_append, List.mem_singleton] at hm'
             rcases hm' with hm' | hm'
-            · exact Or.inl (h e he m' hm')
-            · exact Or.inr hm'
-          · exact List.mem_append_left _ (h e he m' hm')
+            · have := h e he m' hm'
+              exact ⟨List.mem_append_left _ this.1, this.2⟩
+            · subst hm'
+              have hek' : e.1 = (m'.pt, m'.name) := by simpa using hek
+              refine ⟨by simp, ?_, ?_⟩
+              · rw [hek']
+              · rw [hek']
+          · simp only [hek, Bool.false_eq_true, if_false] at hm' ⊢
+            have := h e he m' hm'
+            exact ⟨List.mem_append_left _ this.1, this.2⟩
         · rcases List.mem_append.mp hg' with hg' | hg'
-          · exact List.mem_append_left _ (h grp' hg' m' hm')
+          · have := h grp' hg' m' hm'
+            exact ⟨List.mem_append_left _ this.1, this.2⟩
           · simp only [List.mem_singleton] at hg'
             subst hg'
             simp only [List.mem_singleton] at hm'
             subst hm'
-            simp
+            exact ⟨by simp, rfl, rfl⟩
   intro grp hg m hm
   have := key q [] [] (by intro g hg; cases hg) grp hg m hm
   simpa using this
 
-theorem steps_processQueue (hwf : g.wf = true) {s : State} (hi : RInv g s)
-    (hq : (∀ x, allow x = true) ∨ (∀ m ∈ s.queue, m.text ≠ "submit-failed")) :
-    Steps g allow s (processQueue g s) := by
+/-- `Q` is any invariant of the atomic actions; it has to provide the `live` knowledge for the queued messages -/
+theorem steps_processQueue (hwf : g.wf = true) {s : State} (Q : State → Prop)
+    (hQact : ∀ a b, RInv g a → Q a → Act g K a b → Q b) (hi : RInv g s) (hQ : Q s)
+    (hmsg : ∀ x, K.msg x = true) (hret : K.retry = true) (hsui : K.sui = true ∨ g.noSui = true)
+    (hlv : ∀ st, RInv g st → Q st → ∀ m ∈ s.queue, LiveHyp K st m.pt m.name .received m.submitNum)
+    (hq : (∀ x, K.allow x = true) ∨ (∀ m ∈ s.queue, m.text ≠ "submit-failed")) :
+    Steps g K s (processQueue g s) := by
   unfold processQueue
   simp only
-  have h0 : Steps g allow s { s with queue := [] } := steps_frame rfl rfl rfl rfl
-  have hi0 := rinv_steps hwf h0 hi
+  have hP : ∀ a b, RInv g a ∧ Q a → Act g K a b → RInv g b ∧ Q b :=
+    fun a b h ha => ⟨rinv_act hwf h.1 ha, hQact a b h.1 h.2 ha⟩
+  have h0 : Steps g K s { s with queue := [] } := steps_frame rfl rfl rfl rfl
+  have hi0 := Steps.inv (fun st => RInv g st ∧ Q st) hP h0 ⟨hi, hQ⟩
   refine h0.trans ?_
   have hmem := groupMsgs_mem s.queue
   generalize groupMsgs s.queue = groups at hmem
   generalize ({ s with queue := [] } : State) = s0 at hi0
   -- one group
-  have hgrp : ∀ (grp : (Int × String) × List Msg), (∀ m ∈ grp.2, m ∈ s.queue) → ∀ (st : State), RInv g st →
-      Steps g allow st (
+  have hgrp : ∀ (grp : (Int × String) × List Msg), (∀ m ∈ grp.2, m ∈ s.queue ∧ m.pt = grp.1.1 ∧ m.name = grp.1.2) →
+      ∀ (st : State), RInv g st ∧ Q st →
+      Steps g K st (
         match st.get? grp.1.1 grp.1.2 with
         | none => st
         | some _ =>
@@ -871,30 +1074,38 @@ theorem steps_processQueue (hwf : g.wf = true) {s : State} (hi : RInv g s)
     intro grp hgm st hst
     split
     · exact Steps.refl st
-    · have : ∀ (l : List Msg), (∀ m ∈ l, m ∈ s.queue) → ∀ (acc : State × Bool), RInv g acc.1 →
-          Steps g allow acc.1 (l.foldl (fun (acc : State × Bool) m =>
+    · have : ∀ (l : List Msg), (∀ m ∈ l, m ∈ s.queue ∧ m.pt = grp.1.1 ∧ m.name = grp.1.2) →
+          ∀ (acc : State × Bool), RInv g acc.1 ∧ Q acc.1 →
+          Steps g K acc.1 (l.foldl (fun (acc : State × Bool) m =>
             let (st', pl) := processMessage g 4 acc.1 grp.1.1 grp.1.2 .received m.submitNum m.text
             (st', acc.2 || pl)) acc).1 := by
         intro l; induction l with
         | nil => intro _ acc _; exact Steps.refl _
         | cons m l ihl =>
           intro hl acc ha
-          have h1 : Steps g allow acc.1 (processMessage g 4 acc.1 grp.1.1 grp.1.2 .received m.submitNum m.text).1 := by
-            apply steps_processMessage hwf 4 _ _ _ _ _ _ ha
-            intro hm x _
-            rcases hq with hq | hq
-            · exact hq x
-            · exact absurd hm (hq m (hl m List.mem_cons_self))
+          have hml := hl m List.mem_cons_self
+          have h1 : Steps g K acc.1 (processMessage g 4 acc.1 grp.1.1 grp.1.2 .received m.submitNum m.text).1 := by
+            apply steps_processMessage hwf 4 K _ _ _ _ _ _ ha.1 hsui (fun x _ _ => hmsg x)
+            · intro _
+              have := hlv acc.1 ha.1 ha.2 m hml.1
+              rw [hml.2.1, hml.2.2] at this
+              exact this
+            · exact fun _ => hret
+            · intro hm x _
+              rcases hq with hq | hq
+              · exact hq x
+              · exact absurd hm (hq m hml.1)
           exact h1.trans (ihl (fun m' hm' => hl m' (List.mem_cons_of_mem _ hm'))
             (let (st', pl) := processMessage g 4 acc.1 grp.1.1 grp.1.2 .received m.submitNum m.text
-             (st', acc.2 || pl)) (rinv_steps hwf h1 ha))
+             (st', acc.2 || pl)) (Steps.inv (fun st => RInv g st ∧ Q st) hP h1 ha))
       have h2 := this grp.2 hgm (st, false) hst
       simp only
       split
       · exact h2.trans (steps_frame rfl rfl rfl rfl)
       · exact h2
-  have : ∀ (l : List ((Int × String) × List Msg)), (∀ grp ∈ l, ∀ m ∈ grp.2, m ∈ s.queue) → ∀ (st : State), RInv g st →
-      Steps g allow st (l.foldl (fun (st : State) grp =>
+  have : ∀ (l : List ((Int × String) × List Msg)),
+      (∀ grp ∈ l, ∀ m ∈ grp.2, m ∈ s.queue ∧ m.pt = grp.1.1 ∧ m.name = grp.1.2) → ∀ (st : State), RInv g st ∧ Q st →
+      Steps g K st (l.foldl (fun (st : State) grp =>
         let (p, n) := grp.1
         match st.get? p n with
         | none => st
@@ -909,7 +1120,8 @@ theorem steps_processQueue (hwf : g.wf = true) {s : State} (hi : RInv g s)
       intro hl st hst
       simp only [List.foldl_cons]
       have h1 := hgrp grp (hl grp List.mem_cons_self) st hst
-      exact h1.trans (ihl (fun g' hg' => hl g' (List.mem_cons_of_mem _ hg')) _ (rinv_steps hwf h1 hst))
+      exact h1.trans (ihl (fun g' hg' => hl g' (List.mem_cons_of_mem _ hg')) _
+        (Steps.inv (fun st => RInv g st ∧ Q st) hP h1 hst))
   exact this groups hmem s0 hi0
 
 /-! ### The main loop -/
@@ -929,10 +1141,10 @@ theorem teq_checkAutoShutdown (s : State) : TEq s (checkAutoShutdown g s).1 := b
   · exact teq_checkStalled s
   · split <;> exact teq_checkStalled s
 
-theorem steps_finishLoop (s : State) : Steps g allow s (finishLoop g s) := by
+theorem steps_finishLoop (s : State) : Steps g K s (finishLoop g s) := by
   unfold finishLoop
   simp only
-  have h1 : Steps g allow s (if (s.schedUpd || s.pool.any (·.upd)) = true then
+  have h1 : Steps g K s (if (s.schedUpd || s.pool.any (·.upd)) = true then
       { s with stalled := false, schedUpd := false, pool := s.pool.map fun x => { x with upd := false } }
     else s) := by
     split
@@ -941,7 +1153,7 @@ theorem steps_finishLoop (s : State) : Steps g allow s (finishLoop g s) := by
   generalize (if (s.schedUpd || s.pool.any (·.upd)) = true then
       { s with stalled := false, schedUpd := false, pool := s.pool.map fun x => { x with upd := false } }
     else s) = s1 at h1 ⊢
-  have h2 : Steps g allow s1 { s1 with db := some s1.pool } := steps_frame rfl rfl rfl rfl
+  have h2 : Steps g K s1 { s1 with db := some s1.pool } := steps_frame rfl rfl rfl rfl
   refine (h1.trans h2).trans ?_
   split
   · exact (teq_checkStalled _).steps
@@ -1016,50 +1228,88 @@ theorem queue_releaseAndSubmit (s : State) : (releaseAndSubmit s).queue = s.queu
     intro st x hst
     exact hst
 
-theorem steps_mainLoop (hwf : g.wf = true) {s : State} (hi : RInv g s)
-    (hq : (∀ x, allow x = true) ∨ (∀ m ∈ s.queue, m.text ≠ "submit-failed")) :
-    Steps g allow s (mainLoop g s) := by
-  unfold mainLoop
+/-- the main loop up to and including job submission; the flag says whether automatic shutdown was decided -/
+def preSubmit (g : Graph) (s : State) : State × Bool :=
+  let s := computeRunahead g s
+  let s := (releaseRunahead g s).1
+  let r := checkAutoShutdown g s
+  if r.2 then (r.1, true) else (releaseAndSubmit (sweepQueue r.1), false)
+
+theorem mainLoop_eq (g : Graph) (s : State) :
+    mainLoop g s = if s.stop.isSome then s else
+      if (preSubmit g s).2 then { (preSubmit g s).1 with stop := some "AUTOMATIC" }
+      else finishLoop g (processQueue g (preSubmit g s).1) := by
+  unfold mainLoop preSubmit
+  split
+  · rfl
+  · simp only
+    split <;> rfl
+
+theorem steps_preSubmit (hwf : g.wf = true) (hs : K.sched = true) {s : State} (hi : RInv g s) :
+    Steps g K s (preSubmit g s).1 ∧ (preSubmit g s).1.queue = s.queue := by
+  unfold preSubmit
+  simp only
+  have h1 : Steps g K s (computeRunahead g s) := steps_computeRunahead s false
+  have hi1 := rinv_steps hwf h1 hi
+  have h2 : Steps g K (computeRunahead g s) (releaseRunahead g (computeRunahead g s)).1 :=
+    steps_releaseRunahead hwf hs hi1
+  have hi2 := rinv_steps hwf h2 hi1
+  have h3 : Steps g K (releaseRunahead g (computeRunahead g s)).1
+      (checkAutoShutdown g (releaseRunahead g (computeRunahead g s)).1).1 := (teq_checkAutoShutdown _).steps
+  have hi3 := rinv_steps hwf h3 hi2
+  have hq3 : (checkAutoShutdown g (releaseRunahead g (computeRunahead g s)).1).1.queue = s.queue := by
+    rw [queue_checkAutoShutdown, queue_releaseRunahead, queue_computeRunahead]
+  generalize (checkAutoShutdown g (releaseRunahead g (computeRunahead g s)).1) = R at h3 hi3 hq3 ⊢
+  split
+  · exact ⟨h1.trans (h2.trans h3), hq3⟩
+  · have h4 : Steps g K R.1 (sweepQueue R.1) := steps_sweepQueue hwf hs hi3
+    have hi4 := rinv_steps hwf h4 hi3
+    have h5 : Steps g K (sweepQueue R.1) (releaseAndSubmit (sweepQueue R.1)) := steps_releaseAndSubmit hs hi4
+    exact ⟨(h1.trans (h2.trans h3)).trans (h4.trans h5), by rw [queue_releaseAndSubmit, queue_sweepQueue, hq3]⟩
+
+theorem steps_postSubmit (hwf : g.wf = true) (Q : State → Prop)
+    (hQact : ∀ a b, RInv g a → Q a → Act g K a b → Q b) (hmsg : ∀ x, K.msg x = true) (hret : K.retry = true)
+    (hsui : K.sui = true ∨ g.noSui = true) {s : State} (hi : RInv g s) (hQ : Q s)
+    (hlv : ∀ st, RInv g st → Q st → ∀ m ∈ s.queue, LiveHyp K st m.pt m.name .received m.submitNum)
+    (hq : (∀ x, K.allow x = true) ∨ (∀ m ∈ s.queue, m.text ≠ "submit-failed")) :
+    Steps g K s (finishLoop g (processQueue g s)) :=
+  (steps_processQueue hwf Q hQact hi hQ hmsg hret hsui hlv hq).trans (steps_finishLoop _)
+
+theorem steps_mainLoop (hwf : g.wf = true) (hs : K.sched = true) (hmsg : ∀ x, K.msg x = true) (hret : K.retry = true)
+    (hsui : K.sui = true ∨ g.noSui = true)
+    (Q : State → Prop) (hQact : ∀ a b, RInv g a → Q a → Act g K a b → Q b) {s : State}
+    (hi : RInv g s) (hQ : Q s)
+    (hlv : ∀ st, RInv g st → Q st → ∀ m ∈ s.queue, LiveHyp K st m.pt m.name .received m.submitNum)
+    (hq : (∀ x, K.allow x = true) ∨ (∀ m ∈ s.queue, m.text ≠ "submit-failed")) :
+    Steps g K s (mainLoop g s) := by
+  rw [mainLoop_eq]
   split
   · exact Steps.refl s
-  · simp only
-    have h1 : Steps g allow s (computeRunahead g s) := steps_computeRunahead s false
-    have hi1 := rinv_steps hwf h1 hi
-    have h2 : Steps g allow (computeRunahead g s) (releaseRunahead g (computeRunahead g s)).1 :=
-      steps_releaseRunahead hwf hi1
-    have hi2 := rinv_steps hwf h2 hi1
-    have h3 : Steps g allow (releaseRunahead g (computeRunahead g s)).1
-        (checkAutoShutdown g (releaseRunahead g (computeRunahead g s)).1).1 := (teq_checkAutoShutdown _).steps
-    have hi3 := rinv_steps hwf h3 hi2
-    have hq3 : (checkAutoShutdown g (releaseRunahead g (computeRunahead g s)).1).1.queue = s.queue := by
-      rw [queue_checkAutoShutdown, queue_releaseRunahead, queue_computeRunahead]
-    generalize (checkAutoShutdown g (releaseRunahead g (computeRunahead g s)).1) = R at h3 hi3 hq3 ⊢
-    refine (h1.trans (h2.trans h3)).trans ?_
+  · obtain ⟨h1, hq1⟩ := steps_preSubmit (K := K) hwf hs hi
     split
-    · exact steps_frame rfl rfl rfl rfl
-    · have h4 : Steps g allow R.1 (sweepQueue R.1) := steps_sweepQueue hwf hi3
-      have hi4 := rinv_steps hwf h4 hi3
-      have h5 : Steps g allow (sweepQueue R.1) (releaseAndSubmit (sweepQueue R.1)) := steps_releaseAndSubmit hi4
-      have hi5 := rinv_steps hwf h5 hi4
-      have hq5 : (releaseAndSubmit (sweepQueue R.1)).queue = s.queue := by
-        rw [queue_releaseAndSubmit, queue_sweepQueue, hq3]
-      have h6 : Steps g allow (releaseAndSubmit (sweepQueue R.1)) (processQueue g (releaseAndSubmit (sweepQueue R.1))) :=
-        steps_processQueue hwf hi5 (by rw [hq5]; exact hq)
-      exact (h4.trans (h5.trans h6)).trans (steps_finishLoop _)
+    · exact h1.trans (steps_frame rfl rfl rfl rfl)
+    · have hP := Steps.inv (fun st => RInv g st ∧ Q st)
+        (fun a b h ha => ⟨rinv_act hwf h.1 ha, hQact a b h.1 h.2 ha⟩) h1 ⟨hi, hQ⟩
+      exact h1.trans (steps_postSubmit hwf Q hQact hmsg hret hsui hP.1 hP.2 (by rw [hq1]; exact hlv)
+        (by rw [hq1]; exact hq))
 
 /-! ### One operation -/
 
 theorem rinv_clearOp {s : State} (hi : RInv g s) : RInv g (clearOp s) :=
-  ⟨hi.nodup, hi.sdPool, hi.sdHist⟩
+  ⟨hi.nodup, hi.sdPool, hi.sdHist, hi.nosui⟩
 
-theorem steps_step (hwf : g.wf = true) {s : State} (hi : RInv g s) (op : Op)
-    (hop : (∀ x, allow x = true) ∨ opOK allow s op = true) :
-    Steps g allow (clearOp s) (step g s op) := by
+theorem steps_step_gen (hwf : g.wf = true) (hs : K.sched = true) (hmsg : ∀ x, K.msg x = true) (hret : K.retry = true)
+    (hsui : K.sui = true ∨ g.noSui = true)
+    (Q : State → Prop) (hQact : ∀ a b, RInv g a → Q a → Act g K a b → Q b) {s : State}
+    (hi : RInv g s) (hQ : Q (clearOp s)) (op : Op)
+    (hlv : op = .loop → ∀ st, RInv g st → Q st → ∀ m ∈ s.queue, LiveHyp K st m.pt m.name .received m.submitNum)
+    (hop : (∀ x, K.allow x = true) ∨ opOK K.allow s op = true) :
+    Steps g K (clearOp s) (step g s op) := by
   unfold step
   have hc := rinv_clearOp hi
   cases op with
   | loop =>
-    apply steps_mainLoop hwf hc
+    apply steps_mainLoop hwf hs hmsg hret hsui Q hQact hc hQ (hlv rfl)
     rcases hop with h | h
     · exact Or.inl h
     · right
@@ -1068,18 +1318,29 @@ theorem steps_step (hwf : g.wf = true) {s : State} (hi : RInv g s) (op : Op)
       have := List.all_eq_true.mp h m hm
       simpa using this
   | subres p n ok sn =>
-    apply steps_processMessage hwf 4 _ _ _ _ _ _ hc
-    intro hm x hx
-    rcases hop with h | h
-    · exact h x
-    · unfold opOK at h
-      cases ok with
-      | true => simp at hm
-      | false =>
-        have hx' : s.get? p n = some x := hx
-        simpa [hx'] using h
+    apply steps_processMessage hwf 4 K _ _ _ _ _ _ hc hsui (fun x _ _ => hmsg x)
+    · intro hn
+      cases ok <;> (rcases hn with h | h | h <;> simp at h)
+    · exact fun _ => hret
+    · intro hm x hx
+      rcases hop with h | h
+      · exact h x
+      · unfold opOK at h
+        cases ok with
+        | true => simp at hm
+        | false =>
+          have hx' : s.get? p n = some x := hx
+          simpa [hx'] using h
   | msg p n sn text => exact steps_frame rfl rfl rfl rfl
 
-theorem steps_init (hwf : g.wf = true) : Steps g allow ({} : State) (init g) := steps_loadFromPoint hwf
+theorem steps_step (hwf : g.wf = true) (hs : K.sched = true) (hmsg : ∀ x, K.msg x = true)
+    (hlive : ∀ x, K.live x = true) (hret : K.retry = true) (hsui : K.sui = true) {s : State}
+    (hi : RInv g s) (op : Op) (hop : (∀ x, K.allow x = true) ∨ opOK K.allow s op = true) :
+    Steps g K (clearOp s) (step g s op) :=
+  steps_step_gen hwf hs hmsg hret (Or.inl hsui) (fun _ => True) (fun _ _ _ _ _ => trivial) hi trivial op
+    (fun _ _ _ _ _ _ => Or.inl hlive) hop
+
+theorem steps_init (hwf : g.wf = true) (hs : K.sched = true) : Steps g K ({} : State) (init g) :=
+  steps_loadFromPoint hwf hs
 
 end CylcModel.Sched
